@@ -127,7 +127,7 @@ pub fn queries(out: &mut Out, rng: &mut Rng, case: &Case, heavy: bool) {
         out.emit(&format!("c q utxosall {} c={} {}", tok, cc, lim), &obs);
         let balc = c::get_balance(&text, net, Some(cc));
         out.emit(&format!("c q balance {} {}", tok, cc), &balc);
-        if tok.starts_with("a:") && cc >= 1 {
+        if tok.starts_with("a:") && cc >= 1 && obs != "trap" {
             // C04: the named block and the set, against the definition
             let o = match &parsed {
                 Some(p) => format!("{} {} {}", p.tip_height, p.tip_hash, c::canonical_set_text(&p.utxos).split(' ').next().unwrap()),
